@@ -382,6 +382,32 @@ def r11_response_attempt_unconditional(ctx):
     c15.r9_client_tries_response_first(ctx)
 
 
+def r12_stream_ends_only_when_channel_ends(ctx):
+    """a subscription stream ends when its channel ends (close notification, connection end, lag) - not because one
+    payload failed to decode: in <Subscription as Stream>::poll_next the `is_closed` flag is only ever set to the constant
+    `true`, and only in the same block that produces the `None` item (channel exhausted); every other way through the
+    function yields Some(..) and leaves the flag alone"""
+    F, R = ctx.F, ctx.R
+    b = F.one(r"^<jsonrpsee_core::client::Subscription<Notif> as futures_util::Stream>::poll_next$")
+    R.fn(b)
+    writes = []
+    for bi, blk in enumerate(b.blocks):
+        if blk.get("cleanup") or bi not in b.reachable:
+            continue
+        for st in blk["st"]:
+            if st["s"] == "assign" and st["pl"].get("p") and isinstance(st["pl"]["p"][-1], dict) and st["pl"]["p"][-1].get("n") == "is_closed":
+                writes.append((bi, st))
+    R.check(bool(writes), "C05.R12", "poll_next:closed-flag-written", "poll_next records the end of the channel", "poll_next never sets is_closed", "%s:%d" % (b.file, b.lo))
+    for bi, st in writes:
+        k = op_const(st["rv"]["op"]) if st["rv"]["k"] == "use" else None
+        const_true = bool(k) and k.get("bool") is True
+        none_here = any(s2["s"] == "assign" and s2["rv"]["k"] == "agg" and s2["rv"].get("variant") == "None" and s2["rv"].get("adt", "").startswith("std::option::Option") for s2 in b.blocks[bi]["st"])
+        R.check(const_true and none_here, "C05.R12", "poll_next:closed-only-at-channel-end#%d" % [x[0] for x in writes].index(bi), "is_closed = true exactly where the item is None (channel ended)", "poll_next sets is_closed from %s%s: the stream is marked closed on a path that is not the end of the channel (e.g. after a payload that failed to decode), so later notifications are silently dropped" % ("a computed value" if not const_true else "const true", "" if none_here else " in a block that does not yield None"), "%s:%d" % (b.file, st["sp"][0]))
+    # and nothing short-circuits the channel: the poll of rx is unconditional
+    pn = b.calls_to(r"StreamExt::poll_next_unpin$|Stream::poll_next$")
+    R.check(len(pn) == 1 and flow.all_paths_pass(b, 0, {pn[0].bb}, b.exits) , "C05.R12", "poll_next:channel-always-polled", "every call polls the channel", "poll_next can return without polling the notification channel (a `fuse` on is_closed): once the flag is set no buffered notification is delivered any more", "%s:%d" % (b.file, b.lo))
+
+
 def rarr_every_element(ctx):
     """an array message is processed element by element to the end"""
     from .common import array_elements_all_processed
@@ -395,7 +421,14 @@ def rcancel_receive_is_cancel_safe(ctx):
     read_task_receive_is_cancel_safe(ctx, "C05.CANCEL")
 
 
-RULES = [r1_classifier_agreement, r2_routing, r3_lag_and_close, r4_single_unsubscribe, r5_close_messages_are_not_lossy, r6_refused_insert_is_pure, r7_classifiers_are_plain, r8_client_builder_fields, r9_lagged_is_reported_as_lagged, r10_sub_ids_spelled_alike, r11_response_attempt_unconditional, rarr_every_element, rcancel_receive_is_cancel_safe]
+
+def rkeys_manager_keys_not_derived(ctx):
+    """ids are matched exactly"""
+    from .common import manager_keys_not_derived
+    manager_keys_not_derived(ctx, "C05.KEYS")
+
+
+RULES = [r1_classifier_agreement, r2_routing, r3_lag_and_close, r4_single_unsubscribe, r5_close_messages_are_not_lossy, r6_refused_insert_is_pure, r7_classifiers_are_plain, r8_client_builder_fields, r9_lagged_is_reported_as_lagged, r10_sub_ids_spelled_alike, r11_response_attempt_unconditional, r12_stream_ends_only_when_channel_ends, rarr_every_element, rcancel_receive_is_cancel_safe, rkeys_manager_keys_not_derived]
 
 LEVEL_TEXT = (
     "Structural necessary conditions of the client's notification demultiplexing decided from the type-checked program: "
